@@ -226,6 +226,8 @@ class SymEval:
             return UNIT
         if k == "call":
             p = path_of(e[1]) or ""
+            if p in env and isinstance(env[p], tuple) and env[p][0] in ("closure", "fnref"):
+                return self.apply(env[p], [self.ev(a, env) for a in e[2]])
             if p.split("::")[-1] in ("panic_fmt", "panic", "begin_panic", "panic_display", "unreachable_display", "panic_explicit", "assert_failed"):
                 raise Panic(p.split("::")[-1])
             args = [self.ev(a, env) for a in e[2]]
@@ -364,6 +366,11 @@ class SymEval:
         return True
 
     def apply(self, clo, args):
+        if isinstance(clo, tuple) and clo[0] == "fnref":
+            r = self.h.call(clo[1], args, None)
+            if r is NotImplemented:
+                self.fail("call of function reference %s" % clo[1])
+            return r
         if not (isinstance(clo, tuple) and clo[0] == "closure"):
             self.fail("call of a non-closure %r" % (clo,))
         env = dict(clo[3])
@@ -390,8 +397,14 @@ class SymEval:
                         self.fail("extend with a non-list", e)
                     env[name] = ("list", items + list(args[0][1]))
                 return UNIT
-            if m in ("iter", "iter_mut", "into_iter", "collect", "as_slice", "to_vec", "cloned", "copied", "as_ref"):
+            if m in ("iter", "iter_mut", "into_iter", "collect", "as_slice", "to_vec", "cloned", "copied", "as_ref", "peekable", "by_ref", "fuse"):
                 return recv
+            if m == "peek" and not args:
+                return ("some", items[0]) if items else NONE
+            if m == "next" and not args:
+                if name is not None and name in env:
+                    env[name] = ("list", items[1:])
+                return ("some", items[0]) if items else NONE
             if m == "map" and len(args) == 1:
                 return ("list", [self.apply(args[0], [x]) for x in items])
             if m == "enumerate":
@@ -425,8 +438,7 @@ class SymEval:
                 return ("chunks", [("list", items[i * n_:(i + 1) * n_]) for i in range(full)], ("list", items[full * n_:]))
             if m == "try_into":
                 return ("ok", recv)
-            if m == "next":
-                self.fail("stateful iterator", e)
+
             if m == "join" and len(args) == 1:
                 return ("join", items, args[0])
             if m == "len":
